@@ -126,6 +126,7 @@ structure ProgIR where
   gattrValues : List (Nat × List Int) := []     -- (glyph, values of the IR's glyph attributes) - engine-level runs
   advances : List Int := []                     -- advance width per glyph id (hmtx of the input font)
   points : List (String × List (Nat × Int × Int)) := []   -- attachment points: name -> (glyph, x, y)
+  pointAttrs : List (String × Nat × Nat) := []            -- point name -> IR glyph-attribute numbers of its x and y
   numUser : Nat := 4
 deriving Inhabited
 
@@ -302,9 +303,15 @@ def parseProgIR (text : String) : Except String ProgIR := do
         if u.size != 3 then throw "bad-input: point triple"
         pure ((← jNat u[0]!), (← u[1]!.getInt?), (← u[2]!.getInt?))
       pure (nm, vs)
+  let paj := j.getObjValD "pointAttrs"
+  let pointAttrs ← if paj.isNull then pure [] else do
+    (← paj.getArr?).toList.mapM fun e => do
+      let t ← e.getArr?
+      if t.size != 3 then throw "bad-input: pointAttrs entry"
+      pure ((← t[0]!.getStr?), (← jNat t[1]!), (← jNat t[2]!))
   return {
     features, languages, nameStart, classRefs, autoPseudo, ignoreBad,
-    gattr, gattrValues, advances, points,
+    gattr, gattrValues, advances, points, pointAttrs,
     numGlyphs := ← jNat (← j.getObjVal? "numGlyphs"), numReal := ← jNat (← j.getObjVal? "numReal"),
     lb := ← jNat (← j.getObjVal? "lb"), phantom := ← jNat (← j.getObjVal? "phantom"),
     anyClass := ← jNat (← j.getObjVal? "anyClass"), classes, classDefs, passes }
